@@ -179,4 +179,8 @@ def runSizeLimiterShape : List Bytes := [b!"t:=time.Now()", b!"fileCount:=s.read
     entry is never handed on to another key (the redirect models re-enter with `skipRevalidate = false`). -/
 def cachingFuncCalls : List Bytes := [b!"cachingFunc(w,rr,nil,alwaysInclude,&rf,false)", b!"cachingFunc(w,rr,rr.URL,nil,&rf,false)", b!"cachingFunc(w,rr,rr.URL,alwaysInclude,&rf,false)", b!"cachingFunc(w,r,nil,alwaysInclude,&rf,false)", b!"cachingFunc(w,r,nil,alwaysInclude,&rf,true)", b!"cachingFunc(w,rr,rr.URL,alwaysInclude,&rf,false)", b!"cachingFunc(&ow,or,nil,nil,nil,false)"]
 
+/-- C19: the mapping document handed to the parsers is the whole response body (status 200) or the whole file:
+    nothing is cut, limited or decoded in between ("accepted or rejected whole" starts here) -/
+def readMappingShape : List Bytes := [b!"if (url!=\"\") {req,err:=http.NewRequest(\"GET\",url,nil);if (err!=nil) {return nil,err};resp,err:=http.DefaultClient.Do(req);if (err!=nil) {return nil,err};defer resp.Body.Close();if (resp.StatusCode!=200) {return nil,fmt.Errorf(\"couldn't read mapping rules from URL %q: %s\",url,resp.Status)};return ioutil.ReadAll(resp.Body)} else if (path!=\"\") {return ioutil.ReadFile(path)}", b!"return nil,errors.New(\"no URL or path to mapping file\")"]
+
 end Spec
